@@ -863,33 +863,33 @@ IndexFnV.identity = "fid"
 SInt = TSeq(TInt)
 STok = TSeq(TObj)
 
-mpm_call = Contract(f"{RUN}::IndexFn.__call__", params={"self": IndexFnV, "i": TInt}, returns=TObj, trusted=True, pure=True,
+pmap_call = Contract(f"{RUN}::IndexFn.__call__", params={"self": IndexFnV, "i": TInt}, returns=TObj, trusted=True, pure=True,
                     note="processing one index (the user function runs in there): an opaque function of (worker, index)")
-mpm_submit = Contract(f"{RUN}::_submit", params={"func": IndexFnV, "executor": TObj, "status": TOpt(TObj),
+pmap_submit = Contract(f"{RUN}::_submit", params={"func": IndexFnV, "executor": TObj, "status": TOpt(TObj),
                                                  "progress": TOpt(TObj), "i": TInt}, returns=TObj, trusted=True, pure=True,
                       note="one submission of worker(i) to the executor: the future is an opaque function of the arguments")
-mpm_slurm = Contract("pipefunc/map/_adaptive_scheduler_slurm_executor.py::maybe_update_slurm_executor_map",
+pmap_slurm = Contract("pipefunc/map/_adaptive_scheduler_slurm_executor.py::maybe_update_slurm_executor_map",
                      params={"func": PipeFuncOut, "ex": TObj, "executor": DOutObj2, "process_index": IndexFnV, "seq": SInt},
                      returns=TObj, trusted=True, pure=True, note="the executor to use (a per-function SlurmExecutor or ex itself)")
-mpm_wrap = Contract(f"{RUN}::_wrap_with_status_update", params={"func": IndexFnV, "status": TObj, "progress": TObj},
+pmap_wrap = Contract(f"{RUN}::_wrap_with_status_update", params={"func": IndexFnV, "status": TObj, "progress": TObj},
                     returns=IndexFnV, trusted=True, pure=True, note="the worker with progress bookkeeping around it")
 
 
-def _mpm_ex(S, a):
+def _pmap_ex(S, a):
     """(an executor applies, the executor that _executor_for_func picks)."""
     d = S.some(a.executor)
     own = S.has(d, a.func.output_name)
     return S.not_(S.is_none(a.executor)), S.ite(own, lambda: d[a.func.output_name], lambda: d[_empty_name(S)])
 
 
-def _mpm_no_entry(S, a):
+def _pmap_no_entry(S, a):
     return S.and_(S.not_(S.is_none(a.executor)), lambda: S.and_(
         S.not_(S.has(S.some(a.executor), a.func.output_name)), S.not_(S.has(S.some(a.executor), _empty_name(S)))))
 
 
-def _mpm_ensures(S, a, r, post):
+def _pmap_ensures(S, a, r, post):
     if S.symbolic:
-        par, ex = _mpm_ex(S, a)
+        par, ex = _pmap_ex(S, a)
         ex2 = lambda: S.uf("fn:maybe_update_slurm_executor_map", TObj, a.func, ex, S.some(a.executor), a.process_index, a.indices)  # noqa: E731
         worker = lambda: S.ite(S.is_none(a.status), lambda: a.process_index, lambda: S.uf(  # noqa: E731
             "fn:_wrap_with_status_update", IndexFnV, a.process_index, S.some(a.status), S.some(a.progress)))
@@ -915,15 +915,15 @@ maybe_parallel_map = Contract(
     f"{RUN}::_maybe_parallel_map",
     params={"func": PipeFuncOut, "process_index": IndexFnV, "indices": SInt, "executor": TOpt(DOutObj2),
             "status": TOpt(TObj), "progress": TOpt(TObj)}, returns=STok,
-    raises=[("ValueError", _mpm_no_entry),
+    raises=[("ValueError", _pmap_no_entry),
             ("AssertionError", lambda S, a: S.and_(S.is_none(a.executor), lambda: S.and_(
                 S.not_(S.is_none(a.status)), S.is_none(a.progress))))],
-    ensures=_mpm_ensures,
+    ensures=_pmap_ensures,
 )
-PARALLEL_MAP = [executor_for_func, mpm_call, mpm_submit, mpm_slurm, mpm_wrap, maybe_parallel_map]
+PARALLEL_MAP = [executor_for_func, pmap_call, pmap_submit, pmap_slurm, pmap_wrap, maybe_parallel_map]
 
 
-def mpm_gen(rng, tier):
+def pmap_gen(rng, tier):
     from types import SimpleNamespace as NS
     for q in range(300 if tier == "quick" else 3000):
         out = rng.choice(("a", "b", ("a", "b")))
@@ -935,7 +935,7 @@ def mpm_gen(rng, tier):
                "executor": executor, "status": status, "progress": progress}
 
 
-def mpm_call_real(fn, a):
+def pmap_call_real(fn, a):
     import pipefunc.map._run as R
     saved = (R._submit, R.maybe_update_slurm_executor_map, R._wrap_with_status_update)
     R._submit = lambda pi, ex, status, progress, i: ("submitted", pi.fid, ex, status, progress, i)
